@@ -13,6 +13,12 @@ CHECKS = {
 CHECKS["C12"] = ("property-based testing (rapid state machine over compile histories) + fresh-process differential + race-detector stress",
          "Generated histories of lowerings and backend invocations (incl. one reused spirv.Backend, dxil, ProcessOverrides on a clone) over corpus and generated programs; after every step the output digest must equal that of a fresh pipeline and the deep hash of the pooled module must be unchanged; corpus compiled in several fresh processes must give identical digests; concurrent compilations run under the Go race detector. Exploration: schedules are sampled, not enumerated.",
          "Trusted: irx.Hash completeness; SHA-256 digests; the race detector only sees executed paths.", "DESIGN.md §4 C12")
+CHECKS["C19"] = ("metamorphic property-based testing (rapid) + native fuzzing: meaning-neutral source edits",
+         "Sequences of neutral edits (blankspace and comment insertion/removal at token boundaries incl. hostile comment text, CR/LF variants, exotic blankspace, template-close adjacency, redundant parentheses, trailing commas, consistent renaming) are applied to corpus and generated programs by an independent WGSL tokenizer; acceptance must be unchanged and the lowered module (deep hash modulo names) and every backend's output must be identical (modulo names for renamings). Exploration only.",
+         "Trusted: verif/internal/meta tokenizer and its judgement of which edits are neutral per the WGSL grammar; irx.HashNoNames.", "DESIGN.md §4 C19")
+CHECKS["C11"] = ("property-based testing (rapid): rule-breaking edits at generated sites",
+         "(valid program, rule, site) triples: one of eleven rule-breaking edits is applied at a drawn applicable site of a corpus or generated program; the edited program must be rejected by Parse/Lower/Compile with no output, and the reported position must lie in the text (exact first offending token for syntax edits, inside the enclosing declaration for semantic ones). Exploration only.",
+         "Trusted: verif/internal/meta structural pass (declaration spans, identifier roles) and that each edit breaks only its rule.", "DESIGN.md §4 C11")
 PENDING = {}  # filled below
 
 def main():
